@@ -1,4 +1,5 @@
 import StarsimModel.Model.Pars
+import StarsimModel.Model.ParsDeep
 import StarsimModel.Model.Proto
 open StarsimModel StarsimModel.Pars StarsimModel.Proto
 
@@ -204,6 +205,43 @@ def stepLine (d : RegData) (line : String) : RegData × String :=
                | some i => s!"ok {i}" | none => "ok -")
            | none => "bad-op")
       | _, _ => "bad-op")
+  | ["timector", v, kw, pars] => (d, match parseVar? v, parseItems? kw, parseItems? pars with
+      | some v, some kw, some pars => exc showToks (timeCtor v kw pars)
+      | _, _, _ => "bad-op")
+  | ["mergekw", pars, kw] => (d, match parseItems? pars, parseItems? kw with
+      | some pars, some kw =>
+          "ok " ++ showList (fun (it : Item) => s!"{it.1}:{showN it.2.1}:{it.2.2}") (mergeParsKw pars kw)
+      | _, _ => "bad-op")
+  | ["mergesim", pars, args, kw] => (d, match parseItems? pars, parseItems? args, parseItems? kw with
+      | some pars, some args, some kw =>
+          "ok " ++ showList (fun (it : Item) => s!"{it.1}:{showN it.2.1}:{it.2.2}") (mergeSim pars args kw)
+      | _, _, _ => "bad-op")
+  | ["updateparskw", v, p, pars, kw] => (d, match parseVar? v, parseLeaves? p, parseItems? pars, parseItems? kw with
+      | some v, some p, some pars, some kw => exc showMod (updateParsKw v ⟨p, [], []⟩ pars kw)
+      | _, _, _, _ => "bad-op")
+  | ["ndict", names] => (d,
+      let ns := if names = "-" then [] else names.splitOn ","
+      exc (showList id) (buildNdict [] ns))
+  | ["deep", v, c, name, p, name2, items] => (d, match parseVar? v, parseBool? c, parseLeaves? p, parseItems? items with
+      | some v, some c, some p, some items =>
+          -- sim-level pars ⊃ `diseases` container ⊃ module `name` ⊃ leaves `p`;  update {diseases: {name2: {items}}}
+          let stored : List (String × PT 3) :=
+            [("n_agents", .inl ⟨.num, .isNew 999⟩),
+             ("diseases", .inr (.mods, [(name, .inr (.pars, p.map (fun (kv : String × Slot) => (kv.1, (.inl kv.2 : PT 1)))))]))]
+          let new : List (String × NT 3) :=
+            [("diseases", .inr (.dictNoType, 0, [(name2, .inr (.dictNoType, 0,
+                items.map (fun (it : Item) => (it.1, (.inl it.2 : NT 1)))))]))]
+          (match updateN 3 v c stored new with
+           | .error e => showErr e
+           | .ok p' =>
+               (match lookup "diseases" p' with
+                | some (.inr (_, [(_, .inr (_, leaves))])) =>
+                    "ok " ++ showList (fun (kv : String × PT 1) =>
+                      match kv.2 with
+                      | .inl s => s!"{kv.1}:{showO s.kind}:{showEff s.eff}"
+                      | .inr _ => s!"{kv.1}:container") leaves
+                | _ => "ok other"))
+      | _, _, _, _ => "bad-op")
   | ["facts"] => (d, s!"strict={showBool Gen.strictUnlessCreate} simStrict={showBool Gen.simStrictUpdate} copyDefault={showBool Gen.simCopyDefault} copyFwd={showBool Gen.simCopyForwarded} metaChecked={showBool Gen.metadataTypeChecked} moduleArgs={showList id Gen.moduleArgs} timeArgs={showList id Gen.timeArgs}")
   | _ => (d, "bad-op")
 
